@@ -23,7 +23,7 @@ PLAN = {
     "C04": {"quick": ["struct3", "struct4s", "struct5s", "struct4n0", "struct3zf", "struct3zc", "struct3k"], "thorough": ["struct3", "struct4s", "struct5s", "struct4", "seg13", "struct4n0", "struct3zf", "struct3zc", "struct3k", "struct3w"]},
     "C05": {"quick": ["struct3", "struct4s", "struct5s", "struct4n0", "struct3zf", "struct3zc"], "thorough": ["struct3", "struct4s", "struct5s", "struct4", "seg13", "struct4n0", "struct3zf", "struct3zc", "struct3k", "struct3w"]},
     "C06": {"quick": ["struct3", "struct4s", "struct5s", "struct4n0", "struct3zf", "struct3zc", "struct3k", "struct3w"], "thorough": ["struct3", "struct4s", "struct5s", "struct4", "seg13", "struct4n0", "struct3zf", "struct3zc", "struct3k", "struct3w"]},
-    "C07": {"quick": ["seg13", "seg3d", "seg6s", "seg13w"], "thorough": ["seg13", "seg22", "seg3d", "seg13n", "seg6s", "seg13w"]},
+    "C07": {"quick": ["seg13", "seg3d", "seg6s", "seg13w", "seg13v"], "thorough": ["seg13", "seg22", "seg3d", "seg13n", "seg6s", "seg13w", "seg13v"]},
     "C08": {"quick": ["seg13", "seg3d", "feat13", "feat3d", "feat333", "primseg"],
             "thorough": ["seg13", "seg22", "seg3d", "seg13n", "feat13", "feat22", "feat3d", "feat333", "primseg", "seg13w"]},
     # seg13z: tracks rebuilt from the graph, IoU enabled in bulk at that point; feat13: enable / disable at any point
